@@ -12,7 +12,7 @@ Driver ops of the ofxget layer.
   spec.first <maps> <key>                      -> (ok <optval>)
   spec.stmt <kind> <accounts> <opts>           -> (ok (<rq>…))
   spec.active <kind> <infos>                   -> (ok (<acctkey>…))
-  ofxget.conv <ty> <str> / ofxget.ser <ty> <val> / ofxget.validset <str> / ofxget.interp <sect> <str>
+  ofxget.conv <ty> <str> / ofxget.ser <ty> <val> / ofxget.scheme <str>
 
 Encodings: value `n | (s x..) | (i n) | (b T|F) | (l (x.. …))`; map `((xkey val) …)`;
 file `((xsection ((xkey xvalue) …)) …)`; OFX Home table `((xid none|(some (url org fid brokerid))) …)`.
@@ -176,13 +176,6 @@ def handle : Handler := fun op args =>
     let ty ← decTy ty
     let v ← decVal v
     pure (replyPy (fun s => [encStr s]) (arg2config ty v))
-  | "ofxget.validset", [s] => do
-    let s ← decStr s
-    pure (replyOk [encBool (validSet s)])
-  | "ofxget.interp", [sect, s] => do
-    let sect ← decList (decPair decStr) sect
-    let s ← decStr s
-    pure (replyPy (fun r => [encStr r]) (interpolate T (fun k => sect.lookup k) s))
   | "ofxget.scheme", [s] => do
     let s ← decStr s
     pure (replyOk [encBool (hasScheme s)])
